@@ -166,7 +166,8 @@ def d_enumerate_of_same(f, s, R, db):
     if b is None:
         return None
     coll = b['$coll']
-    while coll[0] == 'call' and coll[1].endswith(('::iter', 'into_iter')) and len(coll[2]) == 1:
+    # length-preserving adapters between the collection and enumerate()
+    while coll[0] == 'call' and coll[1].endswith(('::iter', 'into_iter', '::iter_mut', 'Iterator::copied', 'Iterator::cloned', '::as_slice', 'Iterator::rev')) and len(coll[2]) == 1:
         coll = coll[2][0]
     cc = X.canon(coll)
     # (a) guard: len(coll) == rows(matrix) dominates
